@@ -1180,8 +1180,8 @@ def check_C16(run, replay=None):
                         # a count that was wrong at mount cannot always follow the delta exactly (it may pass through a
                         # value below 0 or above 2^32-2 on the way and then becomes unknown): exactness is required of a
                         # truthful count; a stale one may also stay as it was
-                        if stale and c in (mounted_cnt, 0xFFFFFFFF):
-                            pass
+                        if stale:
+                            pass    # (once a wrong count has left the representable range it is unknown in memory and the medium keeps the last value written)
                         elif 0 <= want < 0xFFFFFFFF and c != want:
                             out.append("op %d (%s): stored free count %d, expected %d (mounted %d, free entries %d -> %d)" % (k, " ".join(op[:2]), c, want, mounted_cnt, mounted, free_now))
                         elif 0 <= want < 0xFFFFFFFF and c == 0xFFFFFFFF and mounted_cnt != 0xFFFFFFFF:
